@@ -320,6 +320,16 @@ def x7(ctx):
                 skip_naive = True
     if not skip_naive:
         raise AnalysisError("naive iteration no longer skips unparseable members; the reference behaviour for X7 is gone")
+    # ... and goes on with the next member: from the handler the listing loop is reached again
+    for h in cfgn.handlers:
+        if h.types and "InvalidFileContents" in h.types:
+            loops_n = [n for n in cfgn.nodes if n.kind == "for"]
+            back = cfgn.reachable([h.entry])
+            again = any(lp.id in back for lp in loops_n)
+            obs.append(ctx.ob(again, naive.qualname, where(naive, h.entry), "an unparseable member is skipped, the scan goes on",
+                              "the handler is inside the loop over the listing",
+                              "the `except InvalidFileContents` of the naive scan is outside the loop over the members: one unparseable "
+                              "file ends the scan, every member listed after it is missing from the answer until the index takes over"))
     cfg = ctx.cfg(idx)
     hs = [h for h in cfg.handlers if h.types and "InvalidFileContents" in h.types]
     if not hs:
@@ -372,6 +382,31 @@ def x6(ctx):
                         flags.add(nm)
     if not flags:
         obs.append(ctx.ok(fi.qualname, where(fi, lp), "no per-group state", "nothing is assigned inside the loop over the key groups"))
+    # the decision "this group is not in the index" is taken from what was found for THIS group: every variable of the
+    # test that guards the group's hand-over to the missing keys is (re)assigned inside the iteration or is the group itself
+    loop_vars = {x.id for x in ast.walk(lp.ast.target) if isinstance(x, ast.Name)}
+    by_ast = {}
+    for n in cfg.nodes:
+        if n.kind == "test":
+            by_ast.setdefault(id(n.ast), n)
+    for n in cfg.nodes:
+        if n.id not in body:
+            continue
+        for c in n.calls():
+            if isinstance(c.func, ast.Attribute) and c.func.attr in ("extend", "update", "append", "add") and c.args \
+                    and isinstance(c.args[0], ast.Name) and c.args[0].id in loop_vars:
+                for t, _pol in cfg.required_conditions(n):
+                    tn = by_ast.get(id(t))
+                    if tn is None or tn.id not in body:
+                        continue
+                    stale = sorted(x.id for x in ast.walk(t) if isinstance(x, ast.Name) and isinstance(x.ctx, ast.Load)
+                                   and x.id not in flags and x.id not in loop_vars and x.id not in ("self", "len", "any", "all", "set", "bool", "not")
+                                   and not ctx.P.try_fold(fi.module, x))
+                    obs.append(ctx.ob(not stale, fi.qualname, where(fi, tn), "missing-group decision uses this group's state",
+                                      "`%s` depends on values of the current iteration only" % src(t)[:40],
+                                      "whether a key group is handed to the missing keys is decided by `%s`, but `%s` is not (re)set per group: "
+                                      "once an earlier group was found every later group counts as present, and the filter is answered from an "
+                                      "index that lacks its keys" % (src(t)[:50], ", ".join(stale))))
     for v in sorted(flags):
         cu = carried_uses(cfg, lp, v)
         obs.append(ctx.ob(not cu, fi.qualname, where(fi, lp), "flag `%s` is reset for every key group" % v,
@@ -551,3 +586,50 @@ def x10(ctx):
 def x11(ctx):
     from .c02 import e3
     return [o for o in e3(ctx) if "VdirStore" in o.construct]
+
+
+@rule("C10", "X12", floor=3, kind="S",
+      desc="both evaluation paths yield, for each listed name, the file and etag of that name (same obligations as C01/H4 "
+           "on the two filter loops)")
+def x12(ctx):
+    from .common import per_item_obligations
+    return per_item_obligations(ctx, ["xandikos.store.Store._iter_with_filter_indexes", "xandikos.store.Store._iter_with_filter_naive"])
+
+
+def index_presence_obligations(ctx):
+    """A property is indexed when it is present, whatever its value: in ICalendarFile._get_index the value of a property
+    is yielded under a presence test (`is not None`, KeyError), never under a truthiness test of the parsed value
+    (PRIORITY:0, an empty SUMMARY: are present - the naive path finds them)."""
+    f = ctx.own_method(ICAL + ".ICalendarFile", "_get_index")
+    cfg = ctx.cfg(f)
+    du = DefUse(cfg)
+    obs = []
+    by_ast = {}
+    for n in cfg.nodes:
+        if n.kind == "test":
+            by_ast.setdefault(id(n.ast), n)
+    ys = [n for n in cfg.stmt_nodes() if n.kind == "stmt" and isinstance(n.ast, ast.Expr) and isinstance(n.ast.value, ast.Yield)
+          and isinstance(n.ast.value.value, ast.Call) and isinstance(n.ast.value.value.func, ast.Attribute) and n.ast.value.value.func.attr == "to_ical"]
+    if not ys:
+        raise AnalysisError("ICalendarFile._get_index: `yield <property>.to_ical()` not found")
+    for y in ys:
+        pv = y.ast.value.value.func.value
+        mine = {(o.kind, id(o.leaf), tuple(o.path)) for o in origins(du, y, pv)}
+        truthy = []
+        for t, pol in cfg.required_conditions(y):
+            x = t.operand if isinstance(t, ast.UnaryOp) and isinstance(t.op, ast.Not) else t
+            if isinstance(x, (ast.Name, ast.Attribute, ast.Subscript)) and id(t) in by_ast:
+                if {(o.kind, id(o.leaf), tuple(o.path)) for o in origins(du, by_ast[id(t)], x)} == mine:
+                    truthy.append(src(t))
+        obs.append(ctx.ob(not truthy, f.qualname, where(f, y), "property value indexed whenever the property is present",
+                          "yield under `is not None` / KeyError only",
+                          "`%s` is reached only if `%s` is truthy: a property whose parsed value is falsy (0, empty text) is treated as "
+                          "absent by the index, while the naive path sees it" % (src(y.ast.value)[:40], " and ".join(truthy))))
+    return obs
+
+
+@rule("C10", "X13", floor=1, kind="S",
+      desc="present means present: _get_index yields the value of every property that exists, not only of those whose "
+           "parsed value is truthy")
+def x13(ctx):
+    return index_presence_obligations(ctx)
